@@ -97,6 +97,34 @@ pub fn cells(ctx: &Ctx) -> Vec<Cell> {
         }
     }
     v.extend(extra_cells(ctx.seed, if ctx.thorough() { 40 } else { 8 }));
+    // neighbours of "default-looking" values: every float parameter of a few grid cells of every family is set to
+    // 0, +-1, 2, 1/2 and to the floats just below and above each (a serialiser that omits or normalises a field
+    // "equal to its default" within a tolerance loses exactly these: seeded change R7-C15-2)
+    {
+        let mut near = vec![];
+        for &fam in CONTINUOUS.iter().chain(DISCRETE.iter()) {
+            let fts: &[Ft] = if fam.int_only() { &[Ft::F64] } else { &[Ft::F32, Ft::F64] };
+            for &ft in fts {
+                let g = grid(fam, ft);
+                let step = (g.len() / 4).max(1);
+                for c in g.iter().step_by(step).take(if ctx.thorough() { 16 } else { 4 }) {
+                    for j in 0..c.p.len().min(4) {
+                        for d in [0.0, 1.0, -1.0, 2.0, 0.5] {
+                            for w in [c.ft.next_down(d), d, c.ft.next_up(d), -0.0] {
+                                let mut n = c.clone();
+                                n.p[j] = w;
+                                if n != *c && matches!(crate::report::catch(|| crate::families::build(&n).is_ok()), Ok(true)) {
+                                    near.push(n);
+                                }
+                            }
+                        }
+                    }
+                }
+            }
+        }
+        ctx.class("near_default_cells", near.len() as u64);
+        v.extend(near);
+    }
     // documented special values with a non-finite internal field
     for ft in [Ft::F32, Ft::F64] {
         v.push(Cell::new(Fam::Exp, ft, &[0.0]));
